@@ -96,10 +96,16 @@ func committable(s *state.StateDB) bool {
 }
 
 // view reads the accounts through the public API of a StateDB opened on a committed root.
-func view(s *state.StateDB) string {
+func view(s *state.StateDB) string { return viewX(s, true) }
+
+func viewX(s *state.StateDB, withSize bool) string {
 	var sb strings.Builder
 	for _, a := range addrs {
-		fmt.Fprintf(&sb, "%v/%d/%s/%x/%s/", s.Exist(a), s.GetNonce(a), s.GetBalance(a), s.GetCode(a), s.GetSize(a))
+		sz := "-"
+		if withSize {
+			sz = s.GetSize(a).String()
+		}
+		fmt.Fprintf(&sb, "%v/%d/%s/%x/%s/", s.Exist(a), s.GetNonce(a), s.GetBalance(a), s.GetCode(a), sz)
 		for _, k := range slots {
 			fmt.Fprintf(&sb, "%x,", s.GetState(a, k).Big())
 		}
@@ -129,12 +135,20 @@ type blockRun struct {
 	root               common.Hash
 	size               string
 	viewTrie, viewSnap string
+	viewNS             string // viewTrie without the storage-size counters
 	nextTrie, nextSnap common.Hash
 	nextOK             bool
 	snapActive         bool
 }
 
 func runBlock(base int, ops []Op, withSnaps bool, monitors bool) *blockRun {
+	return runBlockX(base, ops, withSnaps, monitors, false)
+}
+
+// runBlockX: with commitEach every transaction boundary of the history becomes a block boundary
+// (Finalize, Commit, a NEW StateDB opened on the committed root): nothing but the committed state can
+// flow from one transaction to the next.  ops must not contain Snapshot/Revert then (revision ids restart).
+func runBlockX(base int, ops []Op, withSnaps bool, monitors bool, commitEach bool) *blockRun {
 	e := newChainEnv(withSnaps)
 	root0, size0 := e.buildBase(base)
 	s := e.open(root0, size0, withSnaps)
@@ -144,6 +158,22 @@ func runBlock(base int, ops []Op, withSnaps bool, monitors bool) *blockRun {
 		br.res, br.fails = runHistory(s, ops)
 	} else {
 		for _, o := range ops {
+			if commitEach && (o.K == "EndTx" || o.K == "RootTx") {
+				if !committable(s) {
+					return br
+				}
+				var r common.Hash
+				var err error
+				if safe(func() {
+					s.Finalize(true)
+					r, err = s.Commit(true)
+				}) || err != nil {
+					return br
+				}
+				s = e.open(r, s.GetQuaiTrieSize(), withSnaps)
+				s.Prepare(common.BytesToHash([]byte{0x78, byte(o.V)}), int(o.V))
+				continue
+			}
 			apply(s, o)
 		}
 	}
@@ -164,6 +194,7 @@ func runBlock(base int, ops []Op, withSnaps bool, monitors bool) *blockRun {
 	br.size = size1.String()
 	vt := e.open(root1, size1, false)
 	br.viewTrie = view(vt)
+	br.viewNS = viewX(vt, false)
 	var okT, okS bool
 	br.nextTrie, okT = probe(vt)
 	okS = true
@@ -239,6 +270,37 @@ func (c *ctx) evalBlock(base int, ops []Op, src string) {
 			}
 		}
 	}
+	// transaction boundaries carry nothing but the committed state: the block (Finalize-only boundaries, one
+	// StateDB) == the same transactions without their reverted frames, each committed and re-opened
+	if hasBoundary(ops) && boundarySrc(src) {
+		for _, withSnaps := range []bool{false, true} {
+			br := runs[withSnaps]
+			if br == nil || !br.ok || br.res == nil {
+				continue
+			}
+			cm := runBlockX(base, br.res.erased, withSnaps, false, true)
+			if !cm.ok {
+				continue
+			}
+			c.rep.Count("block:boundary-compared")
+			if cm.root != br.root || cm.size != br.size || cm.viewTrie != br.viewTrie || cm.viewSnap != br.viewSnap || cm.nextTrie != br.nextTrie {
+				sig := "txboundary/block-differs"
+				if br.res.f8 {
+					sig = "f8-suicide-size/root"
+				} else if br.res.sizeLeak {
+					sig = "sizechange-rejournal/erasure"
+				} else if hasRootTx(ops) && cm.viewNS == br.viewNS {
+					// only the storage-size counters differ and the history computed a root in the middle of
+					// the block (not done in production): see design/C12.md, finding "size counter after a
+					// mid-block root"
+					sig = "midblock-root-size-counter/txboundary"
+				}
+				name := map[bool]string{false: "trie", true: "snapshot"}[withSnaps]
+				fails = append(fails, failure{sig, fmt.Sprintf("[%s backend] the block run on one StateDB with Finalize between its transactions ends in root %x size %s post-state %s ; the same transactions (reverted frames removed) each committed and re-opened from the root end in root %x size %s post-state %s: state of an earlier transaction other than its committed result leaks into a later one",
+					name, br.root[:6], br.size, br.viewTrie, cm.root[:6], cm.size, cm.viewTrie)})
+			}
+		}
+	}
 	if a, b := runs[false], runs[true]; a.ok && b.ok {
 		c.rep.Count("block:backends-compared")
 		if a.root != b.root || a.size != b.size {
@@ -261,7 +323,35 @@ func (c *ctx) evalBlock(base int, ops []Op, src string) {
 	}
 }
 
-func endTx(i int) Op { return Op{K: "EndTx", V: int64(i)} }
+func endTx(i int) Op  { return Op{K: "EndTx", V: int64(i)} }
+func rootTx(i int) Op { return Op{K: "RootTx", V: int64(i)} }
+
+func hasRootTx(ops []Op) bool {
+	for _, o := range ops {
+		if o.K == "RootTx" {
+			return true
+		}
+	}
+	return false
+}
+
+// The transaction-boundary monitor runs on the blocks whose operations follow what the EVM can do to an
+// account (layer-*, acct-boundary, corpus).  The older enumerations and the random blocks issue
+// sequences the EVM cannot (a zero SSTORE that instantiates an object over a destroyed predecessor and
+// journals nothing; CreateAccount over a live account that has storage): there the two ways of running
+// the block differ on the unchanged code for the documented resetObjectChange reason (false alarm 6).
+func boundarySrc(src string) bool {
+	return strings.HasPrefix(src, "layer-") || src == "acct-boundary" || src == "corpus"
+}
+
+func hasBoundary(ops []Op) bool {
+	for _, o := range ops {
+		if o.K == "EndTx" || o.K == "RootTx" {
+			return true
+		}
+	}
+	return false
+}
 
 func blockCorpus() []corpusCase {
 	return []corpusCase{
